@@ -307,7 +307,7 @@ Proof.
   assert (Gres : forall p, G p -> exists t rs,
       resolve_ptr (bm_data m) (fst p) (snd p) = (t, rs) /\ is_bad t = false /\ NoDup (children t) /\
       (forall c, In c (children t) -> G c) /\ Forall (Rg objs pads) rs).
-  { intros p Hp. destruct (hi_slots _ _ _ H p Hp) as (t & rs & E & S & C).
+  { intros p Hp. destruct (hinv_slot_res _ _ _ _ H Hp) as (t & rs & E & S & C).
     destruct (resolve_children _ _ _ _ _ E S) as (N & Z1 & Z2).
     exists t, rs. split; [exact E|]. split; [destruct t; cbn in *; auto; contradiction|]. split; [exact N|].
     destruct C as [[-> _]|(ps & r & -> & Ips & D)].
